@@ -29,6 +29,7 @@ class Source(T.NamedTuple):
     fn: str          # function of origin
     node: T.Any      # origin site (ast) - position-free text is used as construct
     what: str
+    certain: bool = True   # False: no totality proof was found, but the site is tested/guarded in a way not understood
 
 
 def _exc_class(name: str) -> T.Optional[type]:
@@ -209,6 +210,14 @@ class Escape:
                     break
         return out
 
+    def tested_everywhere(self, qn: str, node: ast.AST, subjects: T.Iterable[str], inclusive: bool = True) -> bool:
+        """On every enumerated path to `node` some condition mentions one of `subjects` (so a guard of an unrecognised spelling may exist)."""
+        subj = [x for x in subjects if x]
+        pts = self.conds_before(qn, node)
+        if not pts or not subj:
+            return False
+        return all(any(e.kind == 'cond' and any(x in norm(e.node) for x in subj) for e in p.events[:i + (1 if inclusive else 0)]) for p, i in pts)
+
     def caught(self, qn: str, node: ast.AST, cls: str) -> bool:
         ec = _exc_class(cls)
         for tr in self.enclosing_trys(qn, node):
@@ -269,21 +278,30 @@ class Escape:
                         if not self.caught(qn, n, cls):
                             self.unknown_index.append(f'{qn}: `{short(n)}`')
                             continue
-                    srcs.append(Source(cls, qn, n, self.key_witness.get(id(n), f'the key of `{short(n)}` is not shown to be in the table' if cls == 'KeyError' else f'`{short(n)}` may be out of range')))
+                    certain = id(n) in self.key_witness or cls == 'IndexError' or not self.tested_everywhere(qn, n, [norm(n.slice)])
+                    srcs.append(Source(cls, qn, n, self.key_witness.get(id(n), f'the key of `{short(n)}` is not shown to be in the table' if cls == 'KeyError' else f'`{short(n)}` may be out of range'), certain))
                 else:
                     self.discharged.append(f'{qn}: `{short(n)}` total: {why}')
             elif isinstance(n, ast.Attribute) and isinstance(n.value, ast.Attribute) and isinstance(n.ctx, ast.Load):
                 opt = self.optional_field(n.value.attr)
                 if opt:
                     why = self.optional_guarded(qn, n)
-                    if why is None:
-                        srcs.append(Source('AttributeError', qn, n, f'`{short(n.value)}` may be None'))
+                    if isinstance(why, tuple):
+                        srcs.append(Source('AttributeError', qn, n, why[1]))
+                    elif why is None:
+                        base = n.value.value.id if isinstance(n.value.value, ast.Name) else ''
+                        srcs.append(Source('AttributeError', qn, n, f'`{short(n.value)}` may be None',
+                                           not (self.tested_everywhere(qn, n, [norm(n.value)]) or (bool(base) and self.filled_elsewhere(qn, n, base)))))
                     else:
                         self.discharged.append(f'{qn}: `{short(n)}` total: {why}')
             elif isinstance(n, ast.Assert):
                 why = self.assert_total(qn, n)
                 if why is None:
-                    srcs.append(Source('AssertionError', qn, n, f'`{short(n)}` can fail'))
+                    subj = [norm(x) for x in ast.walk(n.test) if isinstance(x, ast.Name) and x.id not in ('isinstance', 'str', 'int', 'bool', 'len', 'self')]
+                    if 'self.previous' in norm(n.test):
+                        subj.append('self.expect')
+                    srcs.append(Source('AssertionError', qn, n, f'`{short(n)}` can fail',
+                                       not self.tested_everywhere(qn, n.test, subj, inclusive=False) and not self._after_consumer(qn, n.test, subj)))
                 else:
                     self.discharged.append(f'{qn}: `{short(n)}` total: {why}')
             elif isinstance(n, ast.Raise) and n.exc is not None:
@@ -362,6 +380,13 @@ class Escape:
             if pts and all(any(e.kind == 'cond' and ((norm(e.node) == seq and e.val) or (norm(e.node) == f'not {seq}' and not e.val)) for e in p.events[:i + 1])
                            for p, i in pts):
                 return f'`{seq}` is tested non-empty on every path'
+        # (b'') mapping lookup under a membership test of the same key
+        if self.is_mapping(qn, n.value):
+            pts = self.conds_before(qn, n)
+            k, m = norm(idx), norm(n.value)
+            if pts and all(any(e.kind == 'cond' and ((norm(e.node) == f'{k} in {m}' and e.val) or (norm(e.node) == f'{k} not in {m}' and not e.val))
+                               for e in p.events[:i + 1]) for p, i in pts):
+                return f'`{k} in {m}` holds on every path'
         # (c) constant mapping indexed by the truthy result of accept_any(<the same mapping>)
         if isinstance(idx, ast.Name) and self.is_mapping(qn, n.value):
             defs = [s for s in walk_no_nested(fn) if isinstance(s, ast.Assign) and any(isinstance(t, ast.Name) and t.id == idx.id for t in s.targets)]
@@ -421,6 +446,22 @@ class Escape:
             return f'guarded by a test of `{base}` on every path'
         return self.filled_by_loop(qn, n, pts)
 
+    def _after_consumer(self, qn: str, node: ast.AST, subj: T.List[str]) -> bool:
+        pts = self.conds_before(qn, node)
+        return bool(pts) and 'self.expect' in subj and all(any(e.kind == 'stmt' and ('self.expect(' in norm(e.node) or 'self.accept(' in norm(e.node))
+                                                               for e in p.events[:i]) for p, i in pts)
+
+    def filled_elsewhere(self, qn: str, n: ast.AST, base: str) -> bool:
+        """`base` is handed to something (a call, a loop) before the access on every path: it may have been filled there."""
+        pts = self.conds_before(qn, n)
+
+        def hands(e: T.Any) -> bool:
+            if e.node is None or e.kind not in ('stmt', 'iter'):
+                return False
+            return any(isinstance(c, ast.Call) and (any(isinstance(a, ast.Name) and a.id == base for a in list(c.args) + [k.value for k in c.keywords])
+                                                      or (isinstance(c.func, ast.Attribute) and norm(c.func.value) == base)) for c in ast.walk(e.node))
+        return bool(pts) and all(any(hands(e) for e in p.events[:i]) for p, i in pts)
+
     def filled_by_loop(self, qn: str, n: ast.Attribute, pts: T.List[T.Tuple[Path, int]]) -> T.Optional[str]:
         """`X.whitespaces.value` where X was filled by `for w in L: X.append_whitespaces(w)` and L cannot be empty:
         L is a snapshot of the pending whitespace taken between the consumption of two keyword tokens, and the lexer cannot
@@ -456,6 +497,9 @@ class Escape:
                    and e.node.args and isinstance(e.node.args[0], ast.Constant)]
             before = [a for a in acc if a[0] < snap[0]]
             after = [a for a in acc if a[0] > snap[0]]
+            if before and not after:
+                return ('violation', f'`{x}` is filled from the snapshot `{lname}`, which is taken after both keyword tokens were consumed: '  # type: ignore[return-value]
+                                     f'it need not contain the whitespace between them, so `{short(n.value)}` can be None')
             if not before or not after:
                 return None
             k1, k2 = before[-1][1].node.args[0].value, after[0][1].node.args[0].value
@@ -726,11 +770,14 @@ def check(ctx: RuleCtx, tokens: T.Any) -> None:
             caught_n += 1
             ctx.ok(f'{qn}: {s.cls} from `{short(s.node, 70)}` is caught and converted before it can leave an entry point')
     cycles: T.List[T.List[str]] = []
+    unsure: T.List[str] = []
     rec_entries: T.Set[str] = set()
     for (cls, _), (s, entries) in escaping.items():
         if s.fn == 'scc':
             cycles.append(es.sccs[s.node])
             rec_entries |= set(entries)
+        elif not s.certain:
+            unsure.append(f'{s.fn}: `{short(s.node, 70)}` ({cls}): no totality proof found, but the site is guarded in a way that is not understood')
         else:
             ctx.violation(mod, s.fn, s.node, f'{cls} can escape from {", ".join(entries)}: {s.what}; no handler on any call chain converts it into a MesonException', s.node)
     n_cyc = len(es.cyclic)
@@ -742,5 +789,7 @@ def check(ctx: RuleCtx, tokens: T.Any) -> None:
     elif n_cyc:
         ctx.ok(f'{n_cyc} call-graph cycle(s) reachable from the entry points are depth-guarded or RecursionError is converted at the entry')
     ctx.floor('recursive cycles in the parser', n_cyc, 2)
+    if unsure:
+        raise Undecided('; '.join(unsure))
     ctx.note(f'{len(reach)} functions, {sum(len(v) for v in es.calls.values())} resolved call sites, '
              f'{sum(len(v) for v in es.local_sources.values())} exception sources, {len(es.discharged) + len(proven)} proven total, {caught_n} caught')
